@@ -151,14 +151,16 @@ def split (req : Req) : Except Panic (Except Err TReqs) :=
 
 /-- what a connected target pushes back on its subscription stream. -/
 inductive DevMsg
-  | resp (id : Str)      -- a `*gnmi.SubscribeResponse`
+  | resp (id : Str)      -- a `*gnmi.SubscribeResponse` carrying an update
+  | sync                 -- a `*gnmi.SubscribeResponse` with `sync_response = true` (end of a round)
   | other (id : Str)     -- any other proto message
 deriving DecidableEq, Repr
 
-/-- the connected targets (`conns.GetByTarget` succeeds) with the messages each sends back. -/
-abbrev Dev := List (Str × List DevMsg)
+/-- the connected targets (`conns.GetByTarget` succeeds) with the messages each sends back, in
+    rounds: round 0 in answer to the subscription, round k in answer to the k-th poll. -/
+abbrev Dev := List (Str × List (List DevMsg))
 
-def devLookup (dev : Dev) (t : Str) : Option (List DevMsg) :=
+def devLookup (dev : Dev) (t : Str) : Option (List (List DevMsg)) :=
   match dev.find? (fun kv => kv.1 = t) with
   | some kv => some kv.2
   | none => none
@@ -174,12 +176,26 @@ def reqPrefix (r : Req) : Option Fields :=
   | .subscribe l => l.pfx
   | _ => none
 
-/-- the `ProtoHandler` installed on the query: a SubscribeResponse is sent on the subscriber's
-    stream as it is; anything else is refused with an error, which ends the target client's
-    receive loop (`client.run` returns on the first error), so nothing after it is relayed. -/
+/-- how a relayed `sync_response` shows in the observations. -/
+def syncId : Str := ['s', 'y', 'n', 'c']
+
+def isOther : DevMsg → Bool
+  | .other _ => true
+  | _ => false
+
+/-- the `ProtoHandler` installed on the query: every SubscribeResponse — update or
+    `sync_response`, the first or the hundredth — is sent on the subscriber's stream as it is;
+    anything else is refused with an error, which ends the target client's receive loop
+    (`client.run` returns on the first error), so nothing after it is relayed. -/
 def relays (t : Str) : List DevMsg → List Out
   | .resp id :: rest => .relayed t id :: relays t rest
+  | .sync :: rest => .relayed t syncId :: relays t rest
   | _ => []
+
+/-- what the subscriber is sent of a target's round `k`: nothing once the receive loop has ended
+    in an earlier round. -/
+def roundRelays (t : Str) (rounds : List (List DevMsg)) (k : Nat) : List Out :=
+  if (rounds.take k).any (fun r => r.any isOther) then [] else relays t (rounds.getD k [])
 
 /-- `sendSubscriptionRequest`: errors are discarded by the caller. -/
 def forward (dev : Dev) (kr : Str × Req) : List Out :=
@@ -187,18 +203,20 @@ def forward (dev : Dev) (kr : Str × Req) : List Out :=
   | none => []                                   -- GetByTarget failed: nothing is sent, nobody is told
   | some msgs =>
     if (reqPrefix kr.2).isNone then []            -- NewQuery: "Prefix field in SubscriptionList is nil"
-    else .subscribed kr.1 kr.2 :: relays kr.1 msgs
+    else .subscribed kr.1 kr.2 :: roundRelays kr.1 msgs 0
 
-/-- `sendPollRequest`. -/
-def pollOne (dev : Dev) (kr : Str × Req) : List Out :=
+/-- `sendPollRequest` for the `k`-th poll of the stream (k = 0 for the first), followed by what the
+    target answers to it. -/
+def pollOne (dev : Dev) (k : Nat) (kr : Str × Req) : List Out :=
   match devLookup dev kr.1 with
   | none => []
-  | some _ => [.polled kr.1]
+  | some rounds => .polled kr.1 :: roundRelays kr.1 rounds (k + 1)
 
 /-- `subContext`. -/
 structure SState where
   req : Option Req := none
   treqs : TReqs := []
+  polls : Nat := 0        -- polls relayed so far (environment bookkeeping: which round the targets are in)
 deriving DecidableEq, Repr
 
 def isSub (r : Req) : Bool :=
@@ -241,7 +259,7 @@ def process (dev : Dev) (st : SState) (msg : Req) : SState × List Out × Option
   match Generated.subProcessChain.find? (fun cl => cl.1.all (atomHolds st msg)) with
   | some (atoms, "refuse") => (st, [], some (refusalKind atoms))
   | some (_, "split") => doSubscribe dev msg
-  | some (_, "poll") => (st, st.treqs.flatMap (pollOne dev), none)
+  | some (_, "poll") => ({ st with polls := st.polls + 1 }, st.treqs.flatMap (pollOne dev st.polls), none)
   | some (_, _) => (st, [.polled []], none)
   | none => (st, [], none)
 
